@@ -112,62 +112,89 @@ Proof.
 Qed.
 
 (* shared-initialize, initargs: with the slots named by the supplied initargs pairwise distinct *)
-Definition arg_slot (IA : list (nat * nat)) (kv : nat * Z) : option nat := lookup IA (fst kv).
-Fixpoint arg_slots (IA : list (nat * nat)) (args : list (nat * Z)) : list nat :=
-  match args with [] => [] | kv :: r => match arg_slot IA kv with Some s => s :: arg_slots IA r | None => arg_slots IA r end end.
+Definition arg_slots (IA : list (nat * nat)) (args : list (nat * Z)) : list nat :=
+  flat_map (fun kv => initarg_slots IA (fst kv)) args.
+Lemma initarg_slots_In : forall IA k s, In s (initarg_slots IA k) <-> In (k, s) IA.
+Proof.
+  intros IA k s. unfold initarg_slots. rewrite dedup_In, in_map_iff. split.
+  - intros [[k' s'] [Hs Hi]]. simpl in Hs. subst s'. apply filter_In in Hi. destruct Hi as [Hi Hk]. simpl in Hk.
+    apply Nat.eqb_eq in Hk. subst k'. assumption.
+  - intros Hi. exists (k, s). split; [reflexivity|]. apply filter_In. split; [assumption | simpl; apply Nat.eqb_refl].
+Qed.
+Lemma initarg_slots_NoDup : forall IA k, NoDup (initarg_slots IA k).
+Proof. intros. unfold initarg_slots, dedup. apply kf_NoDup. Qed.
+Lemma set_slots_ok : forall ss v seen vs, NoDup ss -> (forall s, In s ss -> ~ In s seen) ->
+  exists seen' vs', set_slots ss v seen vs = Some (seen', vs') /\
+    (forall s, memb s seen' = memb s seen || memb s ss) /\
+    (forall s, lookup vs' s = if memb s ss then Some (Some v) else lookup vs s).
+Proof.
+  induction ss as [|s0 r IH]; intros v seen vs Hnd Hfresh; simpl.
+  - exists seen, vs. split; [reflexivity|]. split; [intros; rewrite orb_false_r; reflexivity | reflexivity].
+  - inversion Hnd as [|x l Hnotin Hnd']; subst.
+    assert (memb s0 seen = false) as -> by (apply memb_false; apply Hfresh; left; reflexivity).
+    destruct (IH v (s0 :: seen) (set_assoc vs s0 (Some v)) Hnd') as [seen' [vs' [H1 [H2 H3]]]].
+    + intros s Hs [Hc|Hc]; [subst; contradiction | apply (Hfresh s); [right; assumption | assumption]].
+    + exists seen', vs'. split; [assumption|]. split.
+      * intros s. rewrite H2. simpl. destruct (Nat.eqb s s0); simpl; [rewrite orb_true_r|]; reflexivity.
+      * intros s. rewrite H3. simpl. destruct (Nat.eqb s s0) eqn:E; simpl.
+        -- apply Nat.eqb_eq in E. subst s0. assert (memb s r = false) as -> by (apply memb_false; assumption). apply lookup_set_same.
+        -- destruct (memb s r); [reflexivity|]. apply lookup_set_other. apply Nat.eqb_neq. assumption.
+Qed.
+Lemma NoDup_app_tail : forall (a b : list nat), NoDup (a ++ b) -> NoDup b.
+Proof. induction a as [|x r IH]; intros b H; [assumption|]. simpl in H. inversion H; subst. apply IH. assumption. Qed.
 Lemma shared_args_ok : forall IA args seen vs,
-  (forall kv, In kv args -> arg_slot IA kv <> None) -> NoDup (arg_slots IA args) ->
+  (forall kv, In kv args -> initarg_slots IA (fst kv) <> []) -> NoDup (arg_slots IA args) ->
   (forall s, In s (arg_slots IA args) -> ~ In s seen) ->
   exists seen' vs', shared_args IA args seen vs = Some (seen', vs') /\
     (forall s, memb s seen' = memb s seen || memb s (arg_slots IA args)) /\
-    (forall s, (forall kv, In kv args -> arg_slot IA kv = Some s -> lookup vs' s = Some (Some (snd kv))) /\
+    (forall s, (forall kv, In kv args -> In s (initarg_slots IA (fst kv)) -> lookup vs' s = Some (Some (snd kv))) /\
                (~ In s (arg_slots IA args) -> lookup vs' s = lookup vs s)).
 Proof.
-  induction args as [|[k v] r IH]; intros seen vs Hval Hnd Hseen; simpl.
-  - exists seen, vs. split; [reflexivity|]. split; [intros; rewrite orb_false_r; reflexivity|].
+  induction args as [|[k v] r IH]; intros seen vs Hval Hnd Hseen.
+  - exists seen, vs. split; [reflexivity|]. split; [intros; simpl; rewrite orb_false_r; reflexivity|].
     intros s. split; [intros kv [] | reflexivity].
-  - simpl in *. unfold arg_slot in *. simpl in *. destruct (lookup IA k) as [s0|] eqn:E; [|exfalso; apply (Hval (k, v)); auto].
-    inversion Hnd as [|x0 l0 Hnotin Hnd']; subst.
-    assert (memb s0 seen = false) as Hs0 by (apply memb_false; apply Hseen; left; reflexivity). rewrite Hs0.
-    destruct (IH (s0 :: seen) (set_assoc vs s0 (Some v))) as [seen' [vs' [H1 [H2 H3]]]].
+  - unfold arg_slots in *. simpl in Hnd, Hseen. simpl shared_args.
+    pose proof (Hval (k, v) (or_introl eq_refl)) as Hne. simpl in Hne.
+    assert (NoDup (initarg_slots IA k)) as Hss by apply initarg_slots_NoDup.
+    assert (Hin0 : forall s kv, In kv ((k, v) :: r) -> In s (initarg_slots IA (fst kv)) ->
+                   kv = (k, v) \/ (In kv r /\ In s (flat_map (fun kv => initarg_slots IA (fst kv)) r))).
+    { intros s kv [<-|Hi] Hs; [left; reflexivity|]. right. split; [assumption|]. apply in_flat_map. exists kv. auto. }
+    remember (initarg_slots IA k) as ss eqn:Ess in *.
+    pose proof (NoDup_app_tail _ _ Hnd) as Hnd'.
+    assert (Hdisj : forall s, In s ss -> ~ In s (flat_map (fun kv => initarg_slots IA (fst kv)) r)).
+    { intros s Hs Hc. clear -Hnd Hs Hc. induction ss as [|a l IHl]; [contradiction|]. simpl in Hnd. inversion Hnd; subst.
+      destruct Hs as [->|Hs]; [apply H1; apply in_or_app; right; assumption | apply IHl; assumption]. }
+    destruct (set_slots_ok ss v seen vs Hss) as [seen1 [vs1 [E1 [M1 L1]]]].
+    { intros s Hs. apply Hseen. apply in_or_app. left. assumption. }
+    destruct (IH seen1 vs1) as [seen' [vs' [H1 [H2 H3]]]].
     + intros kv Hi. apply Hval. right. assumption.
     + exact Hnd'.
-    + intros s Hs [Hc|Hc]; [subst; contradiction | apply (Hseen s); [right; assumption | assumption]].
-    + exists seen', vs'. split; [assumption|]. split.
-      * intros s. rewrite H2. simpl. destruct (Nat.eqb s s0); simpl; [rewrite orb_true_r|]; reflexivity.
+    + intros s Hs Hc. apply memb_In in Hc. rewrite M1 in Hc. apply orb_true_iff in Hc. destruct Hc as [Hc|Hc].
+      * apply memb_In in Hc. apply (Hseen s); [apply in_or_app; right; assumption | assumption].
+      * apply memb_In in Hc. exact (Hdisj s Hc Hs).
+    + assert (Hgoal : match ss with
+                      | [] => None
+                      | _ :: _ => match set_slots ss v seen vs with None => None | Some (seen'0, vs'0) => shared_args IA r seen'0 vs'0 end
+                      end = Some (seen', vs')).
+      { destruct ss as [|s0 ss0]; [contradiction|]. rewrite E1. assumption. }
+      exists seen', vs'. split; [destruct ss; exact Hgoal|]. split.
+      * intros s. rewrite H2, M1. simpl. rewrite <- Ess. rewrite memb_app. rewrite orb_assoc. reflexivity.
       * intros s. destruct (H3 s) as [A B]. split.
-        -- intros kv [<-|Hi] Hk; simpl in *.
-           ++ rewrite E in Hk. inversion Hk; subst s. rewrite B by assumption. apply lookup_set_same.
+        -- intros kv Hi Hk. destruct Hi as [<-|Hi].
+           ++ simpl in Hk. rewrite <- Ess in Hk. rewrite B by (apply Hdisj; assumption). rewrite L1.
+              apply memb_In in Hk. rewrite Hk. reflexivity.
            ++ apply A; assumption.
-        -- intros Hn. rewrite B by (intro Hc; apply Hn; right; exact Hc). apply lookup_set_other. intros ->. apply Hn. left. reflexivity.
+        -- intros Hn. simpl in Hn. rewrite <- Ess in Hn.
+           rewrite B by (intro Hc; apply Hn; apply in_or_app; right; exact Hc). rewrite L1.
+           assert (memb s ss = false) as -> by (apply memb_false; intro Hc; apply Hn; apply in_or_app; left; exact Hc). reflexivity.
 Qed.
-Lemma shared_args_invalid : forall IA args seen vs kv, In kv args -> arg_slot IA kv = None -> shared_args IA args seen vs = None.
+Lemma shared_args_invalid : forall IA args seen vs kv, In kv args -> initarg_slots IA (fst kv) = [] -> shared_args IA args seen vs = None.
 Proof.
-  induction args as [|[k v] r IH]; intros seen vs kv Hi Hn; [contradiction|]. simpl.
+  induction args as [|[k v] r IH]; intros seen vs kv Hi Hn; [contradiction|]. cbn [shared_args].
   destruct Hi as [<-|Hi].
-  - unfold arg_slot in Hn. simpl in Hn. rewrite Hn. reflexivity.
-  - destruct (lookup IA k) as [s|]; [|reflexivity]. destruct (memb s seen); [reflexivity|]. eapply IH; eassumption.
-Qed.
-
-(* what the guard of make-instance gives *)
-Lemma lookup_filter_hd : forall (ia : list (nat * nat)) k,
-  lookup ia k = match filter (fun p => Nat.eqb (fst p) k) ia with [] => None | p :: _ => Some (snd p) end.
-Proof.
-  induction ia as [|[k' s'] r IH]; intros k; simpl; [reflexivity|].
-  rewrite (Nat.eqb_sym k' k). destruct (Nat.eqb k k'); [reflexivity | apply IH].
-Qed.
-Lemma initarg_slots_one : forall ia k, Nat.leb (length (initarg_slots ia k)) 1 = true ->
-  (lookup ia k = None /\ initarg_slots ia k = [] /\ forall s, ~ In (k, s) ia) \/
-  (exists s, lookup ia k = Some s /\ initarg_slots ia k = [s] /\ forall s', In (k, s') ia -> s' = s).
-Proof.
-  intros ia k H. apply Nat.leb_le in H. unfold initarg_slots in *. rewrite lookup_filter_hd.
-  assert (Hin : forall s, In (k, s) ia -> In s (dedup (map snd (filter (fun p => Nat.eqb (fst p) k) ia)))).
-  { intros s Hi. apply dedup_In. apply in_map_iff. exists (k, s). split; [reflexivity|]. apply filter_In. split; [assumption | simpl; apply Nat.eqb_refl]. }
-  destruct (filter (fun p => Nat.eqb (fst p) k) ia) as [|p r] eqn:E.
-  - left. split; [reflexivity|]. split; [reflexivity|]. intros s Hi. apply (Hin s Hi).
-  - right. exists (snd p). split; [reflexivity|]. simpl in *. unfold dedup in *. simpl in *.
-    destruct (kf [snd p] (map snd r)) eqn:Ek; [|simpl in H; lia].
-    split; [reflexivity|]. intros s' Hi. destruct (Hin s' Hi) as [<-|[]]. reflexivity.
+  - simpl in Hn. rewrite Hn. reflexivity.
+  - destruct (initarg_slots IA k) as [|s0 ss0]; [reflexivity|].
+    destruct (set_slots (s0 :: ss0) v seen vs) as [[seen1 vs1]|]; [|reflexivity]. eapply IH; eassumption.
 Qed.
 
 Section Make.
@@ -176,8 +203,7 @@ Section Make.
   Let IF := slot_initforms D.
   Variable v0 : varmap.
   Hypothesis HV0 : V0 D v0.
-  Hypothesis Hone : forallb (fun kv => Nat.leb (length (initarg_slots IA (fst kv))) 1) args = true.
-  Hypothesis Hdistinct : nodupb (flat_map (fun kv => initarg_slots IA (fst kv)) args) = true.
+  Hypothesis Hdistinct : nodupb (arg_slots IA args) = true.
 
   Definition slot_D (s : nat) : slotst :=
     match filter (named s) D with
@@ -189,31 +215,21 @@ Section Make.
     end.
   Definition valid_D : bool := forallb (fun kv => memb (fst kv) (flat_map sd_initargs D)) args.
 
-  Lemma arg_one : forall kv, In kv args ->
-    (arg_slot IA kv = None /\ initarg_slots IA (fst kv) = [] /\ forall s, ~ In (fst kv, s) IA) \/
-    (exists s, arg_slot IA kv = Some s /\ initarg_slots IA (fst kv) = [s] /\ forall s', In (fst kv, s') IA -> s' = s).
-  Proof. intros kv Hi. rewrite forallb_forall in Hone. apply initarg_slots_one. apply Hone. assumption. Qed.
-  Lemma arg_slots_flat : forall l, (forall kv, In kv l -> In kv args) ->
-    arg_slots IA l = flat_map (fun kv => initarg_slots IA (fst kv)) l.
-  Proof.
-    induction l as [|kv r IHl]; intros Hsub; [reflexivity|]. simpl.
-    destruct (arg_one kv (Hsub kv (or_introl eq_refl))) as [[H1 [H2 _]]|[s [H1 [H2 _]]]]; rewrite H1, H2; simpl;
-      rewrite IHl; auto; intros; apply Hsub; right; assumption.
-  Qed.
   Lemma in_initargs_IA : forall k s, memb k (flat_map sd_initargs (filter (named s) D)) = true <-> In (k, s) IA.
   Proof.
     intros k s. rewrite memb_In. unfold IA. rewrite IA_In. rewrite in_flat_map. split.
     - intros [sd [H1 H2]]. apply filter_In in H1. destruct H1 as [H1 H3]. exists sd. unfold named in H3. apply Nat.eqb_eq in H3. auto.
     - intros [sd [H1 [H2 H3]]]. exists sd. split; [|assumption]. apply filter_In. split; [assumption|]. unfold named. apply Nat.eqb_eq. assumption.
   Qed.
-  Lemma valid_iff : valid_D = true <-> forall kv, In kv args -> arg_slot IA kv <> None.
+  Lemma valid_iff : valid_D = true <-> forall kv, In kv args -> initarg_slots IA (fst kv) <> [].
   Proof.
     unfold valid_D. rewrite forallb_forall. split.
     - intros H kv Hi Hn. specialize (H kv Hi). apply memb_In in H. apply in_flat_map in H. destruct H as [sd [H1 H2]].
-      destruct (arg_one kv Hi) as [[_ [_ H3]]|[s [H3 _]]]; [|congruence].
-      apply (H3 (sd_name sd)). apply IA_In. eauto.
-    - intros H kv Hi. specialize (H kv Hi). unfold arg_slot in H. destruct (lookup IA (fst kv)) as [s|] eqn:E; [|congruence].
-      apply lookup_In in E. apply IA_In in E. destruct E as [sd [H1 [H2 H3]]]. apply memb_In. apply in_flat_map. eauto.
+      assert (In (sd_name sd) (initarg_slots IA (fst kv))) as Hc by (apply initarg_slots_In; apply IA_In; eauto).
+      rewrite Hn in Hc. contradiction.
+    - intros H kv Hi. specialize (H kv Hi). destruct (initarg_slots IA (fst kv)) as [|s r] eqn:E; [congruence|].
+      assert (In s (initarg_slots IA (fst kv))) as Hs by (rewrite E; left; reflexivity).
+      apply initarg_slots_In in Hs. apply IA_In in Hs. destruct Hs as [sd [H1 [H2 H3]]]. apply memb_In. apply in_flat_map. eauto.
   Qed.
 
   Theorem make_core :
@@ -224,7 +240,7 @@ Section Make.
   Proof.
     destruct valid_D eqn:EV.
     - pose proof (proj1 valid_iff EV) as Hval.
-      assert (Hnd : NoDup (arg_slots IA args)) by (rewrite (arg_slots_flat args (fun kv H => H)); apply nodupb_NoDup; assumption).
+      assert (Hnd : NoDup (arg_slots IA args)) by (apply nodupb_NoDup; assumption).
       destruct (shared_args_ok IA args [] v0 Hval Hnd (fun s _ H => H)) as [seen [v1 [H1 [H2 H3]]]].
       rewrite H1. split; [reflexivity|]. intros s. unfold slot_state, slot_D. rewrite apply_initforms_lookup. rewrite H2. change (memb s []) with false. cbn [orb].
       destruct (H3 s) as [A B]. destruct (HV0 s) as [C Dd]. unfold IF. rewrite IF_lookup.
@@ -234,27 +250,20 @@ Section Make.
         { intros sd Hi Hn. assert (In sd (filter (named s) D)) as Hf by (apply filter_In; split; [assumption | unfold named; apply Nat.eqb_eq; assumption]).
           rewrite EF in Hf. contradiction. }
         assert (Hnoarg : ~ In s (arg_slots IA args)).
-        { intro Hi. rewrite (arg_slots_flat args (fun kv H => H)) in Hi. apply in_flat_map in Hi. destruct Hi as [kv [Hk Hs]].
-          destruct (arg_one kv Hk) as [[_ [E0 _]]|[s' [E1 [E2 _]]]]; [rewrite E0 in Hs; contradiction|].
-          rewrite E2 in Hs. destruct Hs as [<-|[]]. unfold arg_slot in E1. apply lookup_In in E1. apply IA_In in E1.
-          destruct E1 as [sd [I1 [I2 _]]]. exact (Hno sd I1 I2). }
+        { intro Hi. unfold arg_slots in Hi. apply in_flat_map in Hi. destruct Hi as [kv [Hk Hs]].
+          apply initarg_slots_In in Hs. apply IA_In in Hs. destruct Hs as [sd [I1 [I2 _]]]. exact (Hno sd I1 I2). }
         assert (memb s (arg_slots IA args) = false) as -> by (apply memb_false; assumption).
         unfold first_initform. simpl. rewrite (B Hnoarg). rewrite (proj2 C Hno). reflexivity.
       + rewrite <- EF.
         destruct (find (fun kv => memb (fst kv) (flat_map sd_initargs (filter (named s) D))) args) as [kv|] eqn:Efind.
-        * apply find_some in Efind. destruct Efind as [Hk Hm]. apply in_initargs_IA in Hm.
-          destruct (arg_one kv Hk) as [[_ [_ E0]]|[s' [E1 [E2 E3]]]]; [exfalso; exact (E0 s Hm)|].
-          assert (s' = s) by (symmetry; apply E3; assumption). subst s'.
-          assert (In s (arg_slots IA args)) as Hin.
-          { rewrite (arg_slots_flat args (fun kv H => H)). apply in_flat_map. exists kv. split; [assumption|]. rewrite E2. left. reflexivity. }
-          apply memb_In in Hin. rewrite Hin. rewrite (A kv Hk E1). reflexivity.
+        * apply find_some in Efind. destruct Efind as [Hk Hm]. apply in_initargs_IA in Hm. apply initarg_slots_In in Hm.
+          assert (In s (arg_slots IA args)) as Hin by (unfold arg_slots; apply in_flat_map; exists kv; split; assumption).
+          apply memb_In in Hin. rewrite Hin. rewrite (A kv Hk Hm). reflexivity.
         * assert (Hnoarg : ~ In s (arg_slots IA args)).
-          { intro Hi. rewrite (arg_slots_flat args (fun kv H => H)) in Hi. apply in_flat_map in Hi. destruct Hi as [kv [Hk Hs]].
-            destruct (arg_one kv Hk) as [[_ [E0 _]]|[s' [E1 [E2 _]]]]; [rewrite E0 in Hs; contradiction|].
-            rewrite E2 in Hs. destruct Hs as [<-|[]].
+          { intro Hi. unfold arg_slots in Hi. apply in_flat_map in Hi. destruct Hi as [kv [Hk Hs]].
             pose proof (find_none _ _ Efind kv Hk) as Hf. simpl in Hf.
-            assert (memb (fst kv) (flat_map sd_initargs (filter (named s') D)) = true) as Ht
-              by (apply in_initargs_IA; unfold arg_slot in E1; apply lookup_In; assumption).
+            assert (memb (fst kv) (flat_map sd_initargs (filter (named s) D)) = true) as Ht
+              by (apply in_initargs_IA; apply initarg_slots_In; assumption).
             congruence. }
           assert (memb s (arg_slots IA args) = false) as -> by (apply memb_false; assumption).
           rewrite (B Hnoarg).
@@ -270,9 +279,10 @@ Section Make.
     - (* some supplied initarg is unknown *)
       destruct (shared_args IA args [] v0) as [[seen v1]|] eqn:ES; [|reflexivity]. exfalso.
       unfold valid_D in EV. apply forallb_false_ex in EV. destruct EV as [kv [Hk Hf]].
-      assert (arg_slot IA kv = None) as Hn.
-      { unfold arg_slot. destruct (lookup IA (fst kv)) as [s|] eqn:E; [|reflexivity]. exfalso.
-        apply lookup_In in E. apply IA_In in E. destruct E as [sd [I1 [I2 I3]]].
+      assert (initarg_slots IA (fst kv) = []) as Hn.
+      { destruct (initarg_slots IA (fst kv)) as [|s r] eqn:E; [reflexivity|]. exfalso.
+        assert (In s (initarg_slots IA (fst kv))) as Hs by (rewrite E; left; reflexivity).
+        apply initarg_slots_In in Hs. apply IA_In in Hs. destruct Hs as [sd [I1 [I2 I3]]].
         apply memb_false in Hf. apply Hf. apply in_flat_map. eauto. }
       rewrite (shared_args_invalid IA args [] v0 kv Hk Hn) in ES. discriminate.
   Qed.
@@ -320,7 +330,7 @@ Proof.
   assert (HIF : mk_initforms (heap w) (co_slots c) (co_inherit c) = slot_initforms D).
   { unfold mk_initforms. rewrite HL. rewrite (flat_map_of_concat _ _ slot_initforms _ slot_initforms_app eq_refl). rewrite HD. reflexivity. }
   unfold g_make in G. destruct Hr as [L Gc]. rewrite L, Gc in G. rewrite HIA in G.
-  apply andb_true_iff in G. destruct G as [_ G]. apply andb_true_iff in G. destruct G as [G1 G2].
+  apply andb_true_iff in G. destruct G as [_ G2].
   unfold make_instance. destruct (co_prec c) as [|p0 pr] eqn:Ep; [contradiction|].
   destruct Hg as [_ [_ [_ [Ha Hf]]]]. rewrite Ha, Hf, HIA, HIF.
   set (v0 := fold_left (fun vs p => init_inh (slots_of (heap w) p) vs) (co_inherit c) (init_own (co_slots c) [])).
@@ -330,7 +340,7 @@ Proof.
     assert (D = ([] ++ co_slots c) ++ concat (map (slots_of (heap w)) (co_inherit c))) as ->.
     { unfold D, P. simpl. rewrite flat_map_concat_map. rewrite <- H2. rewrite <- H1. reflexivity. }
     apply init_all_V0. apply init_own_V0. apply V0_nil. }
-  pose proof (make_core D args v0 HV0 G1 G2) as Hcore.
+  pose proof (make_core D args v0 HV0 G2) as Hcore.
   assert (HS : forall s, slot_S (cs_of w) P args s = slot_D D args s).
   { intros s. unfold slot_S, slot_D, eff_defs. unfold D. rewrite (flat_map_filter _ _ (cs_of w) (fun sd => Nat.eqb (sd_name sd) s) P). reflexivity. }
   assert (HVal : valid_args (cs_of w) P args = valid_D D args) by reflexivity.
